@@ -324,10 +324,17 @@ impl<K, V, A: Allocator> CaoHashMap<K, V, A> {
             while self.hashes()[j] != 0 {
                 // if the jth item is not in its optimal bucket, then move it back to the empty
                 // slot
-                if (self.hashes()[j] % self.capacity() as u64) != j as u64 {
+                // an entry may only move back if that does not take it before its home slot,
+                // i.e. the (cyclic) distance from its home to the empty slot is not larger than
+                // the distance from its home to its current slot
+                let cap = self.capacity();
+                let home = Self::home_slot(self.hashes()[j], cap);
+                if (i + cap - home) % cap < (j + cap - home) % cap {
                     self.hashes_mut()[i] = self.hashes()[j];
                     std::ptr::swap(self.keys.as_ptr().add(i), self.keys.as_ptr().add(j));
                     std::ptr::swap(self.values.as_ptr().add(i), self.values.as_ptr().add(j));
+                    // slot j is the empty one now
+                    self.hashes_mut()[j] = 0;
                     i = j;
                 }
                 j = (j + 1) % self.capacity();
@@ -418,7 +425,7 @@ impl<K, V, A: Allocator> CaoHashMap<K, V, A> {
 
         // improve uniformity via fibonacci hashing
         // in wasm sizeof usize is 4, so multiply our already 32 bit hash
-        let mut ind = (needle.wrapping_mul(2654435769) as usize) % len;
+        let mut ind = Self::home_slot(needle, len);
         let hashes = self.hashes();
         let keys = self.keys.as_ptr();
         loop {
@@ -431,6 +438,12 @@ impl<K, V, A: Allocator> CaoHashMap<K, V, A> {
             }
             ind = (ind + 1) % len;
         }
+    }
+
+    /// The slot a hash would occupy in an otherwise empty table of the given capacity
+    #[inline]
+    fn home_slot(hash: u64, capacity: usize) -> usize {
+        (hash.wrapping_mul(2654435769) as usize) % capacity
     }
 
     fn hashes(&self) -> &[u64] {
